@@ -68,6 +68,27 @@ def same_key_only(seq):
     return len(keys) <= 1
 
 
+def acts_once_each(seq, got, d2):
+    """got is the product of SOME ordering of seq that keeps every same-key stack in insertion order
+    (what the recorded finding 'mixed-key-order' describes); anything else - a control dropped, applied
+    twice, a same-key stack reversed - is a different violation"""
+    import itertools
+    if got is None:
+        return False
+    for perm in itertools.permutations(seq):
+        last = {}
+        ok = True
+        for i, k, _ in perm:
+            kk = (type(k).__name__, k)
+            if last.get(kk, -1) > i:
+                ok = False
+                break
+            last[kk] = i
+        if ok and np.array_equal(product(perm, d2), got):
+            return True
+    return False
+
+
 def product(seq, d2):
     out = np.identity(d2, dtype=complex)
     for _, _, m in seq:
@@ -112,9 +133,15 @@ def run(chk):
                 elif seq:
                     want = product(seq, d2)
                     if got is None or not np.array_equal(got, want):
-                        chk.fail("mixed-key-order",
-                                 "controls with different keys landing on one step are not applied in insertion order",
-                                 {"api": "Control.get_controls", "hist": repr(hist), "dt": dt, "start": start, "step": s})
+                        if acts_once_each(seq, got, d2):
+                            chk.fail("mixed-key-order",
+                                     "controls with different keys landing on one step are not applied in insertion order",
+                                     {"api": "Control.get_controls", "hist": repr(hist), "dt": dt, "start": start, "step": s})
+                        else:
+                            chk.fail("control-not-applied-exactly-once",
+                                     f"Control.get_controls({s}) {name}: of the {len(seq)} differently keyed controls landing on this step some are "
+                                     "dropped / applied twice (the result is not a product of all of them in any order that keeps same-key stacks)",
+                                     {"api": "Control.get_controls", "hist": repr(hist), "dt": dt, "start": start, "step": s})
         exprs.append(f"ctl_query {d2} {hist_lit(hist)} {float_lit(dt)} {float_lit(start)} {coq_list([zlit(s) for s in steps])}")
         expected.append(exp)
         meta.append({"kind": "get_controls", "d": d, "dt": dt, "start": start, "hist": [(k, p) for k, p, _ in hist]})
